@@ -755,8 +755,8 @@ struct Sizes {
 
 fn sizes(tier: Tier) -> Sizes {
     tier.pick(
-        Sizes { lvl_checked: 1, lvl_panicking: 0, lvl_single: 1, small: 12, lifted: 8, rz: 300, rz_wide: 100, lvl256: 0, lvl_wad: 1, wad_small: 10 },
-        Sizes { lvl_checked: 2, lvl_panicking: 1, lvl_single: 3, small: 40, lifted: 24, rz: 300, rz_wide: 300, lvl256: 2, lvl_wad: 3, wad_small: 30 },
+        Sizes { lvl_checked: 2, lvl_panicking: 0, lvl_single: 2, small: 12, lifted: 8, rz: 300, rz_wide: 100, lvl256: 0, lvl_wad: 1, wad_small: 10 },
+        Sizes { lvl_checked: 3, lvl_panicking: 1, lvl_single: 3, small: 40, lifted: 24, rz: 300, rz_wide: 300, lvl256: 2, lvl_wad: 3, wad_small: 30 },
     )
 }
 
